@@ -82,7 +82,6 @@ func HC17_commonPrefix() {
 	vfObserve("root", root)
 	vfAssert(root != "", "C17/root-nonempty")
 	for _, d := range dirs {
-		vfKnown("C17/sibling-directories-sharing-a-name-prefix", true)
 		vfAssert(ancestorOnBoundary(root, d), "C17/root-is-ancestor-on-component-boundary")
 	}
 }
@@ -90,6 +89,5 @@ func HC17_commonPrefix() {
 // HC17_noFiles: LoadSources on an empty file list must not crash.
 func HC17_noFiles() {
 	panicked, runtimeErr, _ := vfCatch(func() { LoadSources(nil) })
-	vfKnown("C17/empty-file-list", true)
 	vfAssert(!(panicked && runtimeErr), "C17/no-crash-on-empty-list")
 }
